@@ -396,7 +396,11 @@ def run(prop, tier="quick", seed=0, replay=None, only=None):
             # product words, and a `raise` reached only by the interpreter.  They count as violations only with a failing input of
             # the real code (this contract's own run-time evaluation, or its bounded companion); otherwise: not proved
             sat_obs = [o for o in obs if o.verdict == "sat"]
-            if any((o.meta or {}).get("matrix_layer") or (o.meta or {}).get("raised") for o in sat_obs) \
+            # ... and contracts tagged "structural": they pin down the ORDER in which a function is written (prologue / loop body /
+            # epilogue of an integrator), so an equivalent restructuring fails them; same rule
+            cdv0 = [c_ for c_ in contracts if sat_obs and c_.name == sat_obs[0].meta.get("contract")]
+            structural_ = bool(cdv0) and "structural" in (cdv0[0].tags or ())
+            if (structural_ or any((o.meta or {}).get("matrix_layer") or (o.meta or {}).get("raised") for o in sat_obs)) \
                     and not any(v[0] == name for v in violations):
                 cdv = [c_ for c_ in contracts if c_.name == sat_obs[0].meta.get("contract")]
                 rcd_ = cdv[0] if cdv else None
@@ -416,7 +420,8 @@ def run(prop, tier="quick", seed=0, replay=None, only=None):
                     have_native = bool([f for f in pool_ if not match_known(known, f["obligation"])])
                 if not have_native:
                     what = "a raise reached only by the interpreter" if any((o.meta or {}).get("raised") for o in sat_obs) \
-                        else "abstract matrices that the rewriting laws did not identify"
+                        else ("the function is not written in the order the structural contract describes" if structural_
+                              else "abstract matrices that the rewriting laws did not identify")
                     undecided.append(f"{name}: not proved ({what}); no failing input of the real code found by the bounded companion")
                     continue
             failed_names.append(name)
